@@ -678,6 +678,12 @@ def c18_system_tasks(tier):
     st = rep_tasks(["C18S"], b, graphs=["pair", "indep3", "chain3", "fork", "twocomp"], params=[("sz1-mx2", dict(size=1, max_nodes=2)), ("sz1-mxN", dict(size=1, max_nodes=None)), ("sz2-mxN", dict(size=2, max_nodes=None))])
     st += user_round_tasks(["C18S"], (0, 0) if tier == "quick" else (1, 0), ["pair", "indep3"])
     st += shard(rep_tasks(["C18S"], (1, 0), graphs=["indep4"], params=[("sz1-mx3", dict(size=1, max_nodes=3))]), 4)
+    # the status query failing for a whole round must not make active batches look finished
+    for t in rep_tasks(["C18S"], (0, 1), graphs=["pair", "indep3", "chain3"], params=[("sz1-mx2", dict(size=1, max_nodes=2)), ("sz1-mxN", dict(size=1, max_nodes=None))]):
+        t["fault"] = dict(plan="c11", kinds=["squeue"])
+        t["scen"]["free_at_poll"] = True
+        t["id"] += "-squeue-fault"
+        st.append(t)
     for t in st:
         t["id"] = "c18s-" + t["id"]
     return st
@@ -692,7 +698,7 @@ def c18(tier):
         "(c) 7 sbatch answers through JobQueue.submit(AsyncHpcSubmitter); (d) every outcome sequence over {ok, transient, listed-permanent} of length retries+1, retries 0-3, 3 calling modes through run_command. "
         "non-trivial: at least one optional field set / retries > 0 / any status case",
         E_ASSUMPTIONS + ["an AssertionError of the status parser on a malformed line is not counted as 'treated as finished' (recorded as a note)",
-                         "system-level part (mode S): after every submitter round each batch that is pending/running in the simulated scheduler is still listed as active"],
+                         "system-level part (mode S): after every submitter round each batch that is pending/running in the simulated scheduler is still listed as active - also when the status query failed on every attempt of that round"],
         system_tasks=c18_system_tasks(tier))
 
 
@@ -1375,13 +1381,24 @@ def c08(tier):
         t["scen"]["free_at_poll"] = True
         t["id"] += "-squeue-fault"
         st.append(t)
+    # a full disk at one write of a consolidation (EDQUOT at open or at the commit of processed_results.csv): the round dies,
+    # the rows must still be collected exactly once by the rounds that follow
+    for t in rep_tasks(["C08S"], (0, 1), graphs=["chain3", "indep3"], params=[("sz1-mx2", dict(size=1, max_nodes=2)), ("sz2-mxN", dict(size=2, max_nodes=None))]):
+        t["fault"] = dict(plan="c11", kinds=["write"], write_paths=["processed_results.csv"])
+        t["scen"]["free_at_poll"] = True
+        t["scen"]["level"] = 2
+        t["id"] += "-edquot-at-consolidation"
+        st.append(t)
+    # jobs killed by a signal (negative return codes) are results like any other
+    st += rep_tasks(["C08S"], (0, 0), graphs=["indep3", "chain3", "fork"], params=[("sz1-mx2", dict(size=1, max_nodes=2)), ("sz2-mxN", dict(size=2, max_nodes=None))],
+                    exit_sets=lambda n: [(-9,) + (0,) * (n - 1), (0,) * (n - 1) + (-15,)])
     # two-digit batch numbers: results_batch_10.csv, results_batch_11.csv must be collected like the others
     st += rep_tasks(["C08S"], (0, 0), graphs=["indep11"], params=[("sz1-mx2", dict(size=1, max_nodes=2))], finish_orders="default")
     for t in st:
         t["id"] = "c08s-" + t["id"]
     tasks += st
     bounds += ("; system level: REP graphs with several jobs per batch (processes 1/2) and with failures + cancel flags, real run-jobs processes appending while other nodes' submitter rounds collect, "
-               f"{sb[0]} preemption(s), oracle: every runner row exactly once in the consolidated file and its job reported done; also after one failed status query (squeue down for a whole round); 11 single-job batches (two-digit results file names)")
+               f"{sb[0]} preemption(s), oracle: every runner row exactly once in the consolidated file and its job reported done; also after one failed status query (squeue down for a whole round); 11 single-job batches (two-digit results file names); EDQUOT at any write of the consolidated file in a round (L2); jobs killed by signals (return codes -9, -15)")
     return explore_check("C08", tier, tasks, F_RULE + "; the system-level scenarios use the mode-S rule (real CLI processes over the simulated scheduler)", F_ASSUMPTIONS, dict(bounds=bounds))
 
 
